@@ -456,7 +456,11 @@ static Spec *makeSpec(char *name)
 
     current_spec.name = xstrdup(name);
 
-    /* FIXME: check for manditory scripts here?  what are they? */
+    /* A device cannot be used without a login script: it is run after
+     * every connect.
+     */
+    if (current_spec.prescripts[PM_LOG_IN] == NULL)
+        _errormsg("specification has no login script");
 
     spec = _copy_current_spec();
     assert(device_specs != NULL);
